@@ -761,4 +761,31 @@ def Route.globalNextHop (r : Route) : Bool := if r.vrfName.isEmpty then true els
 /-- `network_object.prefixlen`; `none` = `network_object` is `None` (the attribute access raises) -/
 def Route.masklen (r : Route) : Option Nat := (ipv4obj r.prefix_ r.netmask).map (·.2)
 
+/-! ## further accessors of the same objects (reached by the generator since the coverage pass) -/
+
+/-- `port` = `self.cisco_interface_object.port`: the third component `ordinal_list` reports; `none` = raises
+(`NoRegexMatch` / `InvalidCiscoInterface` — also where `ordinal_list` silently answers `()`) -/
+def port (s : Str) : Option Int :=
+  match ordinalList s with
+  | some (_ :: _ :: p :: _) => some p
+  | _ => none
+
+/-- `_address_family`: the constructor of `IOSRouteLine` only completes for `ip route` lines (for an `ipv6 route`
+line it raises NotImplementedError, which `config_line_factory` swallows, handing out a plain `IOSCfgLine`) -/
+def Route.addressFamily (_r : Route) : Str := "ip".toList
+
+/-- `nexthop_str`: `next_hop_interface + " " + next_hop_addr` when there is an interface (a trailing blank when
+there is no address), else `next_hop_addr` -/
+def Route.nexthopStr (r : Route) : Str :=
+  if r.nextHopInterface.isEmpty then r.nextHopAddr else r.nextHopInterface ++ ' ' :: r.nextHopAddr
+
+inductive RouteErr | valueError | notImplementedError
+deriving Repr, DecidableEq
+
+/-- `nexthop_vrf` is an IPv6-only notion: ValueError for every `ip route` object -/
+def Route.nexthopVrf (_r : Route) : Except RouteErr Str := .error .valueError
+
+/-- `unicast`: "unclear how to implement this" — NotImplementedError for every object -/
+def Route.unicast (_r : Route) : Except RouteErr Bool := .error .notImplementedError
+
 end Ccp.Ios
